@@ -5,12 +5,14 @@
 import FordModel.Path
 import FordModel.Nav
 import FordModel.Url
+import FordModel.StrLink
 import FordModel.Lemmas.Path
 import FordModel.Lemmas.Nav
 import FordModel.Lemmas.Url
+import FordModel.Lemmas.StrLink
 import FordModel.Generated.C09
 namespace Ford.C09
-open Ford Ford.Path Ford.Nav Ford.Url Ford.Generated.C09
+open Ford Ford.Path Ford.Nav Ford.Url Ford.StrLink Ford.Generated.C09
 
 /-! ## relative URLs: `os.path.relpath` and its resolution -/
 
@@ -135,6 +137,73 @@ theorem nav_index_files_witness :
     bar's "Source File" link), whose target then exists by the theorem above. -/
 example : ∃ e ∈ navTables.navConds, excluded e = false ∧ eval singleFileShape e.cond = true ∧
     targetExists navTables singleFileShape e.target = true := by
+  decide +kernel
+
+/-! ## links printed by `FortranBase.__str__` versus the pages that are written -/
+
+/-- `pageWritten` is exactly the (disjunction of the) `entity_list_page_map` guards that
+    cover the project list, e.g. `settings.incl_src` for the source files. -/
+theorem entity_pages_written_iff (N : Nav.Tables) (sh : Shape) (l : Str) :
+    pageWritten N sh l = true ↔ eval sh (pageCond N l) = true := by
+  rw [pageWritten_eq]
+
+/-- Generic form, for any extracted tables: if a project list passes the check, then
+    for every project shape (all counts, all option values) for which `main` gets as
+    far as writing pages, whenever `__str__` of a member prints the `<a href=…>` form
+    (the entity has a URL and its `visible` flag is on) the member's page is made. -/
+theorem str_link_entry_sound (N : Nav.Tables) (U : Url.Tables) (T : StrLink.Tables) (e : Str × Str)
+    (h : listOk N T e = true) (sh : Shape) (hpre : eval sh N.mainPre = true)
+    (n : Node) (hn : n.cls = e.2) (rest : List Node) (flag : Option Bool)
+    (hs : strEmitsLink U T sh (n :: rest) flag = true) :
+    pageWritten N sh e.1 = true :=
+  listOk_sound N T e h sh hpre (hn ▸ (strEmitsLink_visCond U T sh n rest flag hs).2)
+
+/-- Clause "resolves to a file that exists … for every … option combination (… sources
+    hidden …)", for the links that the templates print through `FortranBase.__str__` for
+    the *parent* of an entity (the "Location"/"Parent" cells of the list pages, the
+    breadcrumbs, `{{ x.parent | relurl }}`): over the regenerated tables — `__str__`'s
+    gate, the constructors' rule for `self.visible` with the keywords the project hands
+    them, the member class of every project list, `entity_list_page_map` with its guards —
+    for every project list whose members can be somebody's parent (`isinstance(self.parent,
+    …)` tuple of `get_dir`: source files, modules, submodules, programs, block data) and
+    every project shape: if `__str__` of a member prints a link, the page it points at is
+    written.  (`_partial`: lists whose members are never a parent — the extra, non-Fortran
+    files, which no template prints through `__str__` when sources are hidden — are
+    outside; that is the explicit hypothesis `hp`.) -/
+theorem parent_str_link_page_written_partial (l c : Str) (hl : (l, c) ∈ visTables.listClass)
+    (hp : isParentClass urlTables c = true) (sh : Shape) (hpre : eval sh navTables.mainPre = true)
+    (n : Node) (hn : n.cls = c) (rest : List Node) (flag : Option Bool)
+    (hs : strEmitsLink urlTables visTables sh (n :: rest) flag = true) :
+    pageWritten navTables sh l = true := by
+  have hall : (parentLists urlTables visTables).all (listOk navTables visTables) = true := by
+    decide +kernel
+  exact str_link_entry_sound navTables urlTables visTables (l, c)
+    (List.all_eq_true.1 hall (l, c) (List.mem_filter.2 ⟨hl, hp⟩)) sh hpre n hn rest flag hs
+
+/-- The same, read the other way round (what "sources hidden" relies on): when the pages
+    of such a list are not written, no member prints a link to its page. -/
+theorem no_page_no_parent_str_link (l c : Str) (hl : (l, c) ∈ visTables.listClass)
+    (hp : isParentClass urlTables c = true) (sh : Shape) (hpre : eval sh navTables.mainPre = true)
+    (hw : pageWritten navTables sh l = false)
+    (n : Node) (hn : n.cls = c) (rest : List Node) (flag : Option Bool) :
+    strEmitsLink urlTables visTables sh (n :: rest) flag = false := by
+  cases hs : strEmitsLink urlTables visTables sh (n :: rest) flag with
+  | false => rfl
+  | true =>
+    have := parent_str_link_page_written_partial l c hl hp sh hpre n hn rest flag hs
+    simp [hw] at this
+
+/-- Non-vacuity: the source files are such a list, a source file of a project with
+    sources included does print its link, and a project with sources hidden has no
+    pages for them. -/
+example :
+    let file : Node := ⟨"FortranSourceFile".toList, "sourcefile".toList, "a.f90".toList, true, false⟩
+    let on : Shape := { count := fun _ => 1, opt := fun _ => true }
+    let off : Shape := { count := fun _ => 1, opt := fun _ => false }
+    ("files".toList, "FortranSourceFile".toList) ∈ visTables.listClass ∧
+      isParentClass urlTables "FortranSourceFile".toList = true ∧
+      strEmitsLink urlTables visTables on [file] none = true ∧
+      eval off navTables.mainPre = true ∧ pageWritten navTables off "files".toList = false := by
   decide +kernel
 
 /-! ## entity URLs: `get_dir`, `get_url`, page files -/
